@@ -69,6 +69,16 @@ type Ctx struct {
 	BinRace string // -race build (C14 only)
 	Tmp     string // scratch dir of this worker (removed at exit)
 	Self    string // path of this executable (for limexec)
+	flake   string // set when the tooling around a child process failed (strace, wall-clock guard) during the current case
+}
+
+// Flake records that an observation of the current case is unusable because the tooling around
+// the child process failed (strace's own ptrace error, the wall-clock guard). The case is then
+// counted as inconclusive whatever its oracle concluded from the garbage.
+func (c *Ctx) Flake(why string) {
+	if c.flake == "" {
+		c.flake = why
+	}
 }
 
 // Rand returns the PRNG of (seed, property, stream, idx).
@@ -274,7 +284,13 @@ func runCase(p *Prop, ctx *Ctx, idx int) (res *Result) {
 			res.Violate("harness-panic", fmt.Sprintf("panic in case %d: %v\n%s", idx, r, buf), nil)
 		}
 	}()
-	return p.Run(ctx, idx)
+	ctx.flake = ""
+	res = p.Run(ctx, idx)
+	if ctx.flake != "" {
+		res = &Result{Evals: 1, Inconcl: 1}
+		res.Violate("harness-flake", fmt.Sprintf("case %d: %s", idx, ctx.flake), nil)
+	}
+	return res
 }
 
 // ---------------------------------------------------------------------------------------------
@@ -460,8 +476,15 @@ loop:
 	knownHit := map[int]int{}
 	var unknown []aggViol
 	harnessTrouble := 0
+	harnessFlakes := 0
 	sort.Slice(a.viols, func(i, j int) bool { return a.viols[i].idx < a.viols[j].idx })
 	for _, av := range a.viols {
+		if av.v.Class == "harness-flake" {
+			// isolated tooling failures (strace, wall-clock guard): inconclusive cases, tolerated in small numbers
+			harnessFlakes++
+			fmt.Printf("HARNESS-FLAKE case=%d %s\n", av.idx, firstLines(av.v.Detail, 3))
+			continue
+		}
 		if strings.HasPrefix(av.v.Class, "harness-") || strings.Contains(av.v.Class, "/harness-") {
 			harnessTrouble++
 			fmt.Printf("HARNESS-TROUBLE case=%d %s\n", av.idx, firstLines(av.v.Detail, 30))
@@ -560,6 +583,9 @@ loop:
 	floor := 2
 	if p.Floor != nil {
 		floor = p.Floor(w.tier)
+	}
+	if harnessFlakes > 3+n/200 {
+		harnessTrouble += harnessFlakes
 	}
 	if watchdogFired || harnessTrouble > 0 || len(a.sigs) < floor || a.casesDone < n {
 		fmt.Printf("INCONCLUSIVE: watchdog=%v harness_trouble=%d distinct=%d floor=%d cases=%d/%d\n", watchdogFired, harnessTrouble, len(a.sigs), floor, a.casesDone, n)
@@ -785,6 +811,10 @@ func soloConfirm(self string, w workerArgs, idx int, why, errTail, logDir string
 		class = "memory"
 	}
 	sig := crashSignature(errTail + "\n" + soloTail)
+	if sig == "unknown" && strings.Contains(errTail+soloTail, "verif/harness/ref.") {
+		// the harness's own reference model blew up, not gopatch
+		return &Result{Evals: 1, Inconcl: 1, Viol: []Violation{{Class: "harness-reference-blowup", Detail: fmt.Sprintf("case %d: %s\n%s", idx, why, errTail)}}}
+	}
 	return &Result{Evals: 1, Viol: []Violation{{
 		Class:  class + ":" + sig,
 		Detail: fmt.Sprintf("case %d: %s; solo re-run under RLIMIT_CPU also failed (%v)\n--- batch stderr tail\n%s\n--- solo stderr tail\n%s", idx, why, err, errTail, soloTail),
